@@ -78,12 +78,14 @@ def gen_call(rng):
         c["direction"] = rng.choice([None, None, None, "x", "zyx", "top", "side", "vec", "basis"])
     elif fn == "histogram2d":
         c["layers"] = rng.sample([0, 1, 2], rng.choice([0, 1, 1, 2]))
+        c["bare_first"] = bool(c["layers"]) and rng.random() < 0.15  # a bare Array ahead of the Layer objects in the same call
         c["limits"] = rng.random() < 0.5
         c["plot"] = rng.random() < 0.04
         c["fail"] = rng.choice([None, None, None, "norm"])
     elif fn == "histogram1d":
         # several layers in one call: the returned Plot describes the last one
         c["layers"] = rng.sample([0, 1, 2], rng.choice([1, 1, 2, 3]))
+        c["bare_first"] = rng.random() < 0.15
         c["bins_call"] = rng.choice([None, 5, "shared-list"])
         c["weights_call"] = rng.random() < 0.4
         # logarithmic axes, and data with zero / negative entries (with explicit bin edges)
@@ -361,6 +363,8 @@ def run_call(case, call, S, sims, reference_layer=None):
         if fn == "histogram2d":
             if reference_layer is None:
                 layers = [S.layers[k] for k in call["layers"]]
+                if call.get("bare_first"):
+                    layers = [S.dg["mass"]] + layers
                 kw = call_kwargs(call, S)
             else:
                 layers = [S.dg.layer(keys[reference_layer])]
@@ -390,6 +394,8 @@ def run_call(case, call, S, sims, reference_layer=None):
                 h = {"bins": None, "weights": False}
             if reference_layer is None:
                 layer = [S.h1_layers[j] for j in call["layers"]]
+                if call.get("bare_first") and not call.get("signed"):
+                    layer = [S.dg["mass"]] + layer
                 if call["bins_call"] == 5:
                     kw["bins"] = 5
                 elif call["bins_call"] == "shared-list":
@@ -602,6 +608,11 @@ def execute(case, stats):
                 break
         else:
             seen[key] = dg_
+        if call.get("bare_first"):
+            # a bare Array ahead of the Layers: the inputs were verified unmodified and the repetition compared above; the
+            # per-layer precedence clauses (which index the returned layers by position) are judged on the other calls
+            stats.inc("probe.bare_array_ahead_of_layer_objects")
+            continue
         # ---- precedence: every layer equals the reference call with the effective options at call level
         if fn in ("map", "histogram2d") and call.get("layers"):
             for pos, k in enumerate(call["layers"]):
